@@ -1,44 +1,27 @@
-"""The inner function of dcmstack.make_key_regex_filter, TRANSLATED into typed Gallina (translator and vocabulary:
-tools/tables/py2coq.py; primitives: coq/Common/PyOps2.v).  The two variables it closes over become parameters:
-  exclude_re : regex          (a compiled pattern = its search predicate  str -> bool)
-  include_re : option regex   (None when force_include_res is falsy)
-  key_regex_filter(key : str, value : V) -> truth       (callers only test the result: `if self._meta_filter(key, value)`)
-coq/Filter/SrcEq.v proves Filter.Model.key_regex_filter equal to this definition.  The outer function (re.compile of
-the '|'-join of the patterns, `if force_include_res:`) is outside the vocabulary and stays in the hand model; this
-module only checks that its shape is still `exclude_re = <expr>; include_re = None; if force_include_res:
-include_re = <expr>; def key_regex_filter..; return key_regex_filter`."""
-import ast
-from astlib import *      # noqa: F401,F403
-from py2coq import Fn, translate_all, STR, OPT, REGEX, TRUTH
+"""dcmstack.make_key_regex_filter and its inner function, TRANSLATED into typed Gallina (translator and vocabulary:
+tools/tables/py2coq.py; primitives: coq/Common/PyOps2.v).
 
-WHAT = "dcmstack.make_key_regex_filter.key_regex_filter (inner function body, translated by tools/tables/py2coq.py)"
+  key_regex_filter_src        the inner function; the two variables it closes over become parameters:
+        exclude_re : regex   (a compiled pattern = its search predicate  str -> bool)     include_re : option regex
+        key_regex_filter(key : str, value : V) -> truth   (callers only test the result: `if self._meta_filter(key, value)`)
+  make_key_regex_filter_src   the outer function applied to the arguments of the closure it returns:
+        make_key_regex_filter(exclude_res : list str, force_include_res : option (list str) = None)(key, value)
+        `re.compile` is external code: the parameter  re_compile : str -> regex.
+coq/Filter/SrcEq.v proves Filter.Model.key_regex_filter equal to both (for the outer one under the hypothesis the hand
+model documents: the compiled '(?:p1)|(?:p2)|...' alternation matches iff one of the parts does, '' matches everything)."""
+from astlib import *      # noqa: F401,F403
+from py2coq import Fn, translate_all, STR, LIST, OPT, REGEX, TRUTH
+
+WHAT = ("dcmstack.make_key_regex_filter and its inner function key_regex_filter (function bodies, translated by "
+        "tools/tables/py2coq.py)")
 
 SRC = 'src/dcmstack/dcmstack.py'
 
 
-def _check_outer(fn):
-    body = [s for s in fn.body if not (isinstance(s, ast.Expr) and isinstance(s.value, ast.Constant))]
-    ok = (len(body) == 5
-          and isinstance(body[0], ast.Assign) and [getattr(t, 'id', None) for t in body[0].targets] == ['exclude_re']
-          and isinstance(body[1], ast.Assign) and [getattr(t, 'id', None) for t in body[1].targets] == ['include_re']
-          and isinstance(body[1].value, ast.Constant) and body[1].value.value is None
-          and isinstance(body[2], ast.If) and isinstance(body[2].test, ast.Name) and body[2].test.id == 'force_include_res'
-          and not body[2].orelse and len(body[2].body) == 1 and isinstance(body[2].body[0], ast.Assign)
-          and [getattr(t, 'id', None) for t in body[2].body[0].targets] == ['include_re']
-          and isinstance(body[3], ast.FunctionDef) and body[3].name == 'key_regex_filter'
-          and isinstance(body[4], ast.Return) and isinstance(body[4].value, ast.Name) and body[4].value.id == 'key_regex_filter')
-    if not ok:
-        raise TableError('make_key_regex_filter: the outer function no longer has the expected shape')
-    for v, arg in ((body[0].value, 'exclude_res'), (body[2].body[0].value, 'force_include_res')):
-        # re.compile('|'.join(['(?:' + regex + ')' for regex in <arg>]))
-        want = "re.compile('|'.join(['(?:' + regex + ')' for regex in %s]))" % arg
-        if ast.dump(v) != ast.dump(ast.parse(want, mode='eval').body):
-            raise TableError('make_key_regex_filter: the pattern for %s is no longer %s' % (arg, want))
-
-
 def emit(src):
-    t = src.tree(SRC)
-    _check_outer(find_func(t, 'make_key_regex_filter'))
-    spec = Fn('key_regex_filter_src', SRC, 'make_key_regex_filter', TRUTH, [('key', STR), ('value', 'V')],
-              inner='key_regex_filter', closure=[('exclude_re', REGEX), ('include_re', OPT(REGEX))], tparams=('V',))
-    return translate_all(src, [spec])
+    inner = Fn('key_regex_filter_src', SRC, 'make_key_regex_filter', TRUTH, [('key', STR), ('value', 'V')],
+               inner='key_regex_filter', closure=[('exclude_re', REGEX), ('include_re', OPT(REGEX))], tparams=('V',))
+    outer = Fn('make_key_regex_filter_src', SRC, 'make_key_regex_filter', TRUTH,
+               [('exclude_res', LIST(STR)), ('force_include_res', OPT(LIST(STR)))], tparams=('V',),
+               externals={'re.compile': ('re_compile', [STR], REGEX)}, returns_inner='key_regex_filter')
+    return translate_all(src, [inner, outer])
